@@ -7,7 +7,7 @@
             successful restart, so the C03 theorems about the full BMC model apply. *)
 From Coq Require Import List Bool Lia.
 From Patronus Require Import SysExec ReachSpec Witness Bmc BmcWit BmcWitFull PdrSys PdrImpl PdrWit
-     Encoding EncodingOrder WitnessProofs BmcProofs BmcWitProofs BmcWitFullProofs.
+     Encoding EncodingOrder WitnessProofs ReachBmcProofs BmcProofs BmcWitProofs BmcWitFullProofs BmcFullExact PdrImplProofs PdrSysProofs.
 Import ListNotations.
 
 (** ** Part 1 *)
@@ -24,7 +24,7 @@ Section FailIsBmc.
   Variable bmc_result : bmc_answer W EM.
 
   Lemma pdr_loop_fail_is_bmc bf : forall fuel st w st',
-    pdr_loop lit lit_eqb St cube_of_state W EM solve cmd_fail gen_on bmc_result fuel bf st = Ok _ _ _ _ (VFail W w, st') ->
+    pdr_loop lit lit_eqb St cube_of_state W EM solve cmd_fail gen_on bmc_result fuel bf st = @Ok _ _ _ _ (VFail W w, st') ->
     bmc_result = PdrImpl.BmcFail W EM w.
   Proof.
     induction fuel as [|fuel IH]; intros st w st' H; [discriminate H|].
@@ -43,7 +43,7 @@ Section FailIsBmc.
   Qed.
 
   Lemma pdr_fail_is_bmc fuel bf w st' :
-    pdr lit lit_eqb St cube_of_state W EM solve cmd_fail n_init gen_on has_bads bmc_result fuel bf = Ok _ _ _ _ (VFail W w, st') ->
+    pdr lit lit_eqb St cube_of_state W EM solve cmd_fail n_init gen_on has_bads bmc_result fuel bf = @Ok _ _ _ _ (VFail W w, st') ->
     bmc_result = PdrImpl.BmcFail W EM w.
   Proof.
     unfold pdr. destruct has_bads; [|discriminate].
@@ -65,7 +65,7 @@ Section Composed.
 
   (** Fail(w) of the composed model: the restart succeeded and the BMC run returned exactly [w] *)
   Lemma pdr_wit_fail fuel bf w st' :
-    pdr_wit EM sy nm solve cmd_fail n_init gen_on restart_fault sv fuel bf = Ok _ _ _ _ (VFail witness w, st') ->
+    pdr_wit EM sy nm solve cmd_fail n_init gen_on restart_fault sv fuel bf = @Ok _ _ _ _ (VFail witness w, st') ->
     restart_fault = None /\ exists k, bmc_model_full EM sv sy nm false false MAX_FRAMES = FFail k w.
   Proof.
     unfold pdr_wit. destruct (pdr_raw EM sy nm solve cmd_fail n_init gen_on restart_fault sv fuel bf) as [[v st]|e l|n|] eqn:E; try discriminate.
@@ -83,7 +83,7 @@ Section Composed.
   Hypothesis Hac : init_deps_acyclic sy.
 
   Theorem pdr_witness_is_execution fuel bf w st' :
-    pdr_wit EM sy nm solve cmd_fail n_init gen_on restart_fault sv fuel bf = Ok _ _ _ _ (VFail witness w, st') ->
+    pdr_wit EM sy nm solve cmd_fail n_init gen_on restart_fault sv fuel bf = @Ok _ _ _ _ (VFail witness w, st') ->
     check_witness sy w = true /\ witness_ok sy w /\
     exists frees : list env,
       is_initial_r sy (witness_env0 sy w) /\
@@ -100,7 +100,7 @@ Section Composed.
 
   (** the witness has the least possible length when the restarted solver's "unsat" answers are right *)
   Theorem pdr_witness_shortest fuel bf w st' : solver_unsat_right sv ->
-    pdr_wit EM sy nm solve cmd_fail n_init gen_on restart_fault sv fuel bf = Ok _ _ _ _ (VFail witness w, st') ->
+    pdr_wit EM sy nm solve cmd_fail n_init gen_on restart_fault sv fuel bf = @Ok _ _ _ _ (VFail witness w, st') ->
     exists j, length (w_inputs w) = S j /\ (j <= MAX_FRAMES)%nat /\ reach_at sy j /\ forall m, (m < j)%nat -> ~ reach_at sy m.
   Proof.
     intros Hunsat H. destruct (pdr_wit_fail fuel bf w st' H) as (_ & k & Hb).
@@ -109,3 +109,79 @@ Section Composed.
     apply Nnat.Nat2N.inj in Hjj. subst j'. exists j. repeat split; assumption.
   Qed.
 End Composed.
+
+(** ** Part 3: the fallback finds the witness.  When the PDR part gives up blocking, a bad state is reachable
+    within the frontier depth <= MAX_FRAMES ([PdrImplProofs.pdr_model_unknown_only] / [PdrSysProofs.unsafe_exec],
+    under a truthful PDR oracle); an exact BMC run up to MAX_FRAMES ([BmcFullExact]) then returns Fail. *)
+Section FallbackFinds.
+  Variable EM : Type.
+  Variables (sy : sys) (nm : expr -> string).
+  Variable solve : nat -> PdrImpl.query slit -> PdrImpl.answer slit (sstate sy) EM.
+  Variable cmd_fail : nat -> option EM.
+  Variable n_init : nat.
+  Variable gen_on : bool.
+  Variable sv : solver EM.
+  Hypothesis Hcls : fin_class sy = true.
+  Hypothesis Htr : forall n q, truthful slit slit_eqb (sstate sy) EM (slit_holds sy) (st_bad0 sy) (st_step0 sy) (st_trans sy) (st_bad sy)
+                                        q (solve n q).
+  Hypothesis Hsound : solver_sound sv.
+  Hypothesis Hunsat : solver_unsat_right sv.
+  Hypothesis Htotal : solver_total sv.
+  Hypothesis Hwf : sys_wf sy = true.
+  Hypothesis Hni : nodup_exprs (s_inputs sy) = true.
+  Hypothesis Hn : names_ok (enc_new sy nm) = true.
+  Hypothesis Hac : init_deps_acyclic sy.
+  Hypothesis Hsig : forall k, (k <= MAX_FRAMES)%nat ->
+    signals_at (enc_new sy nm) (s_constraints sy) (N.of_nat k) <> None /\
+    signals_at (enc_new sy nm) (s_bads sy) (N.of_nat k) <> None.
+
+  Lemma max_frames_ok : (MAX_FRAMES <= 2000)%nat.
+  Proof. unfold MAX_FRAMES. repeat constructor. Qed.
+
+  (** after a successful restart the fallback returns a witness or finds nothing because there is nothing *)
+  Lemma fallback_cases :
+    (exists w, fallback EM sy nm None sv = PdrImpl.BmcFail (option witness) EM (Some w)) \/
+    (fallback EM sy nm None sv = BmcOther (option witness) EM /\ forall j, (j <= MAX_FRAMES)%nat -> ~ reach_at sy j).
+  Proof.
+    unfold fallback, fallback_bmc.
+    assert (Hd : s_bads sy = [] \/ s_bads sy <> []) by (destruct (s_bads sy); [now left|right; discriminate]).
+    destruct Hd as [Eb|Hb].
+    - right. unfold bmc_model_full. rewrite Eb.
+      assert (E : Nat.ltb 2000 MAX_FRAMES = false) by (apply PeanoNat.Nat.ltb_ge; exact max_frames_ok). rewrite E.
+      split; [reflexivity|]. intros j _ (trace & _ & _ & Hbad). unfold some_bad in Hbad. rewrite Eb in Hbad. discriminate.
+    - destruct (bmc_full_spec EM sv Hsound Hunsat Htotal sy nm Hwf Hni Hn Hac Hb MAX_FRAMES max_frames_ok Hsig false false)
+        as [(j & w & E & _)|[(E & Hall)|(Hcc & _)]]; [| |discriminate Hcc].
+      + left. exists w. now rewrite E.
+      + right. rewrite E. split; [reflexivity|]. intros j Hj. apply (Hall j). lia.
+  Qed.
+
+  Lemma pdr_oracle_ok :
+    oracle_ok slit slit_eqb (sstate sy) (scube sy) EM solve (has_bads_b sy) (slit_holds sy) (st_bad0 sy) (st_step0 sy) (st_trans sy) (st_bad sy).
+  Proof.
+    split; [exact (scube_unique sy)|]. split; [exact Htr|].
+    unfold has_bads_b. intros Hb. apply no_bads_sys. destruct (s_bads sy); [reflexivity|discriminate Hb].
+  Qed.
+
+  (** Unknown only from the frame limit: when the restart succeeds, the fallback never comes back empty-handed *)
+  Theorem pdr_fallback_finds_witness fuel bf st' :
+    pdr_wit EM sy nm solve cmd_fail n_init gen_on None sv fuel bf = @Ok _ _ _ _ (VUnknown witness, st') ->
+    (MAX_FRAMES < length (p_frames _ _ _ st'))%nat.
+  Proof.
+    unfold pdr_wit. destruct (pdr_raw EM sy nm solve cmd_fail n_init gen_on None sv fuel bf) as [[v st]|e l|n|] eqn:E; try discriminate.
+    destruct v as [|ow|]; try discriminate; [destruct ow; discriminate|].
+    intros H. inversion H; subst. clear H. unfold pdr_raw in E.
+    destruct (pdr_model_unknown_only _ _ _ _ _ _ _ _ _ _ _ _ _ _ _ _ _ _ _ _ pdr_oracle_ok E) as [Hlim|(Hother & d & Hd & Hu)]; [exact Hlim|].
+    exfalso. apply (unsafe_exec sy Hcls) in Hu. apply bad_within_reach in Hu. destruct Hu as (j & Hj & Hr).
+    destruct fallback_cases as [(w & Hw)|(_ & Hno)].
+    - rewrite Hw in Hother. discriminate.
+    - apply (Hno j); [lia|assumption].
+  Qed.
+
+  (** ... and it neither fails nor panics: every verdict of the composed model that comes from the fallback is Fail *)
+  Theorem pdr_fallback_definite :
+    forall e, fallback EM sy nm None sv <> BmcErr (option witness) EM e /\
+              fallback EM sy nm None sv <> PdrImpl.BmcFail (option witness) EM None.
+  Proof.
+    intros e. destruct fallback_cases as [(w & ->)|(-> & _)]; split; discriminate.
+  Qed.
+End FallbackFinds.
